@@ -101,6 +101,10 @@ type area struct {
 	asserts map[string]assertion   // "<Go type of x>.(<asserted type>)"
 	news    map[string]string      // new(T): Go type T -> term
 	panicf  string                 // payload constructor of panic(fmt.Errorf(format, typeid, ...))
+	maps    map[string]string      // Go map type -> lookup function  (lookup m k : V' * bool, zero value on a miss)
+	cells   map[string]string      // pointer types modelled as the value they point to (never nil): "*T" -> "T"
+	errorf  string                 // fmt.Errorf(format, ...) as an error VALUE: (errorf format)
+	ints    map[string]bool        // further integer-like types (compared with =?)
 }
 
 type recField struct {
@@ -214,6 +218,46 @@ func init() {
 			"middleware.LoggingMiddleware": {coq: "RestRuntime.log_mw", args: []int{0}, results: []string{"http.RoundTripper"}},
 			"reflect.Type.Elem":            {recv: true, coq: "RestPrims.type_elem", results: []string{"reflect.Type"}},
 		},
+		nilPan: "PNilDeref",
+	}
+}
+
+func init() {
+	areas["enum"] = &area{
+		name:   "enum",
+		module: "EnumGen",
+		header: []string{
+			"From Coq Require Import ZArith List Bool String.",
+			"From Shoot Require Import Model.Enum Bridge.EnumPrims.",
+		},
+		section: []string{
+			"Section Gen.",
+			"Variable kind : Enum.kind.               (* the integer kind underlying T *)",
+			"Variable vmap : list (string * Z).       (* T.ValueMap() *)",
+			"Variable vals : list Z.                  (* T.Values() *)",
+			"",
+		},
+		footer: []string{"End Gen."},
+		world:  "unit",
+		funcs: []fnSpec{
+			{file: "enumer.go", name: "ParseEnum", inst: map[string]string{"T": "T"}},
+			{file: "enumer.go", name: "TryParseEnum", inst: map[string]string{"T": "T"}},
+			{file: "enumer.go", name: "IsEnum", inst: map[string]string{"T": "T", "TV": "TV"}},
+		},
+		types: map[string]string{
+			"int": "Z", "bool": "bool", "string": "string", "T": "Z", "TV": "Z", "*T": "Z", "[]T": "(list Z)",
+			"map[string]T": "(list (string * Z))", "error": "(option string)",
+		},
+		ptrs:  map[string]bool{"error": true},
+		ints:  map[string]bool{"T": true, "TV": true},
+		cells: map[string]string{"*T": "T"},
+		maps:  map[string]string{"map[string]T": "EnumPrims.map_lookup"},
+		prims: map[string]prim{
+			"T.ValueMap": {coq: "vmap", results: []string{"map[string]T"}},
+			"T.Values":   {coq: "vals", results: []string{"[]T"}},
+			"T":          {coq: "EnumPrims.conv kind", args: []int{0}, results: []string{"T"}},
+		},
+		errorf: "EnumPrims.errorf",
 		nilPan: "PNilDeref",
 	}
 }
@@ -400,6 +444,9 @@ func (t *translator) zero(n ast.Node, goType string) string {
 	if t.a.ptrs[goType] {
 		return "None"
 	}
+	if t.a.ints[goType] {
+		return "0"
+	}
 	switch goType {
 	case "int", "time.Duration":
 		return "0"
@@ -542,6 +589,9 @@ func (t *translator) typeOf(e ast.Expr, ev *env) string {
 		if strings.HasPrefix(xt, "*") && t.a.records[xt] != nil {
 			return xt[1:]
 		}
+		if c, ok := t.a.cells[xt]; ok {
+			return c
+		}
 		unsup(x, "dereference of a %s", xt)
 	case *ast.CallExpr:
 		if id, ok := x.Fun.(*ast.Ident); ok && id.Name == "len" && len(x.Args) == 1 {
@@ -558,6 +608,9 @@ func (t *translator) typeOf(e ast.Expr, ev *env) string {
 		}
 		if _, ok := t.typeIdOf(x); ok {
 			return "reflect.Type"
+		}
+		if exprKey(x.Fun) == "fmt.Errorf" && t.a.errorf != "" {
+			return "error"
 		}
 		if c, ok := t.callableOf(x, ev); ok {
 			if c.result == "" || c.mutate {
@@ -649,6 +702,9 @@ func (t *translator) primOf(c *ast.CallExpr, ev *env) (prim, string) {
 	}
 	p, ok := t.a.prims[key]
 	if !ok {
+		if ix, isIx := c.Fun.(*ast.IndexExpr); isIx && key == "" {
+			key = exprKey(ix.X) + "[...]"
+		}
 		if key == "" {
 			key = fmt.Sprintf("%T", c.Fun)
 		}
@@ -763,7 +819,7 @@ func (t *translator) pure(e ast.Expr, ev *env, want string) string {
 		}
 		return "(" + f.coq + " " + t.pure(x.X, ev, xt) + ")"
 	case *ast.StarExpr:
-		t.typeOf(x, ev) // a record pointer: *p is the record itself
+		t.typeOf(x, ev) // a record pointer or a cell: *p is the value itself
 		return t.pure(x.X, ev, "")
 	case *ast.CallExpr:
 		if id, ok := x.Fun.(*ast.Ident); ok && id.Name == "len" && len(x.Args) == 1 {
@@ -781,6 +837,19 @@ func (t *translator) pure(e ast.Expr, ev *env, want string) string {
 		}
 		if name, ok := t.typeIdOf(x); ok {
 			return name
+		}
+		if exprKey(x.Fun) == "fmt.Errorf" && t.a.errorf != "" && len(x.Args) >= 1 {
+			lit, isLit := x.Args[0].(*ast.BasicLit)
+			if !isLit || lit.Kind != token.STRING {
+				unsup(x, "fmt.Errorf whose format is not a string literal")
+			}
+			for _, a := range x.Args[1:] {
+				if t.mayPanic(a, ev) {
+					unsup(a, "fmt.Errorf argument that can panic")
+				}
+			}
+			// an error value is its format (the arguments are not kept)
+			return "(" + t.a.errorf + " " + t.pure(lit, ev, "string") + ")"
 		}
 		if id, ok := x.Fun.(*ast.Ident); ok && id.Name == "append" && len(x.Args) == 2 && x.Ellipsis == token.NoPos {
 			return "(" + t.pure(x.Args[0], ev, "") + " ++ [" + t.pure(x.Args[1], ev, "") + "])%list"
@@ -859,8 +928,11 @@ func (t *translator) binary(x *ast.BinaryExpr, ev *env, sub func(ast.Expr, strin
 			lt = rt
 		}
 	}
+	if rt := t.typeOf(x.Y, ev); rt != lt && rt != "int" && lt != "int" && rt != "nil" {
+		unsup(x, "operator %s on a %s and a %s", x.Op, lt, rt)
+	}
 	l, r := sub(x.X, lt), sub(x.Y, lt)
-	isInt := lt == "int" || lt == "time.Duration"
+	isInt := lt == "int" || lt == "time.Duration" || t.a.ints[lt]
 	switch x.Op {
 	case token.ADD, token.SUB, token.MUL:
 		if !isInt {
@@ -1027,8 +1099,10 @@ func assigned(stmts []ast.Stmt, ev *env) []*variable {
 		case *ast.ExprStmt:
 			// f(x): a function value may write through x
 			if c, ok := s.X.(*ast.CallExpr); ok && len(c.Args) == 1 {
-				if id, isId := c.Args[0].(*ast.Ident); isId {
-					set[id.Name] = true
+				if f, isVar := c.Fun.(*ast.Ident); isVar && ev.index[f.Name] != nil {
+					if id, isId := c.Args[0].(*ast.Ident); isId {
+						set[id.Name] = true
+					}
 				}
 			}
 		case *ast.FuncLit:
@@ -1368,6 +1442,23 @@ func (t *translator) assign(x *ast.AssignStmt, ev *env, cont func(*env) string) 
 		}
 		return "(let " + id.Name + " := " + t.pure(be, ev, "") + " in\n" + cont(ev) + ")"
 	}
+	// *v = e  on a cell parameter
+	if x.Tok == token.ASSIGN && len(x.Lhs) == 1 && len(x.Rhs) == 1 {
+		if st, ok := x.Lhs[0].(*ast.StarExpr); ok {
+			id, isId := st.X.(*ast.Ident)
+			if !isId {
+				unsup(x, "assignment through something that is not a variable")
+			}
+			v, isVar := ev.index[id.Name]
+			if !isVar || t.a.cells[v.typ] == "" {
+				unsup(x, "assignment through %s", id.Name)
+			}
+			if t.mayPanic(x.Rhs[0], ev) {
+				unsup(x, "assignment through a pointer of an expression that can panic")
+			}
+			return "(let " + id.Name + " : " + t.coqType(x, v.typ) + " := " + t.pure(x.Rhs[0], ev, t.a.cells[v.typ]) + " in\n" + cont(ev) + ")"
+		}
+	}
 	// G[k] = v  on a package-level map
 	if x.Tok == token.ASSIGN && len(x.Lhs) == 1 && len(x.Rhs) == 1 {
 		if ix, ok := x.Lhs[0].(*ast.IndexExpr); ok {
@@ -1450,6 +1541,28 @@ func (t *translator) assign(x *ast.AssignStmt, ev *env, cont func(*env) string) 
 				}
 			}
 		}
+		// v, ok := m[k]  on a local map
+		if ix, ok := x.Rhs[0].(*ast.IndexExpr); ok {
+			if mid, isId := ix.X.(*ast.Ident); isId {
+				if mv, isVar := ev.index[mid.Name]; isVar {
+					look, isMap := t.a.maps[mv.typ]
+					if !isMap {
+						unsup(ix, "comma-ok index on a %s", mv.typ)
+					}
+					if t.mayPanic(ix.Index, ev) {
+						unsup(ix, "map key that can panic")
+					}
+					vt := mv.typ[strings.Index(mv.typ, "]")+1:]
+					e2 := ev
+					if define {
+						e2 = ev.clone()
+						declare(e2, lhs[0], vt)
+						declare(e2, lhs[1], "bool")
+					}
+					return "(let '(" + lhs[0] + ", " + lhs[1] + ") := " + look + " " + t.pure(ix.X, ev, "") + " " + t.pure(ix.Index, ev, "") + " in\n" + cont(e2) + ")"
+				}
+			}
+		}
 		// a, ok := x.(T)
 		if ta, ok := x.Rhs[0].(*ast.TypeAssertExpr); ok && ta.Type != nil {
 			key := t.typeOf(ta.X, ev) + ".(" + typeString(ta.Type) + ")"
@@ -1472,7 +1585,11 @@ func (t *translator) assign(x *ast.AssignStmt, ev *env, cont func(*env) string) 
 	// x := F(args) for a function of the area translated before
 	if len(x.Rhs) == 1 {
 		if c, ok := x.Rhs[0].(*ast.CallExpr); ok {
-			if fid, isId := c.Fun.(*ast.Ident); isId {
+			fun := c.Fun
+			if ix, isIx := fun.(*ast.IndexExpr); isIx {
+				fun = ix.X // F[T](...): the instantiation is the one of this translation
+			}
+			if fid, isId := fun.(*ast.Ident); isId {
 				if sg, isFn := t.sigs[fid.Name]; isFn {
 					if _, local := ev.index[fid.Name]; !local {
 						return t.callTranslated(x, c, fid.Name, sg, lhs, define, declare, ev, cont)
@@ -1506,6 +1623,12 @@ func (t *translator) assign(x *ast.AssignStmt, ev *env, cont func(*env) string) 
 				if p.world {
 					return "(let '(" + pat + ", w) := " + call + " w in\n" + cont(e2) + ")"
 				}
+				if define && len(lhs) == 1 && lhs[0] != "_" && !reuse[lhs[0]] && t.immutable(lhs[0], c, ev) {
+					// a pure primitive of values that never change: the local stands for the call
+					v := e2.index[lhs[0]]
+					v.kind, v.def = 3, "("+call+")"
+					return cont(e2)
+				}
 				return "(let '" + pat + " := " + call + " in\n" + cont(e2) + ")"
 			}
 		}
@@ -1514,6 +1637,14 @@ func (t *translator) assign(x *ast.AssignStmt, ev *env, cont func(*env) string) 
 		unsup(x, "parallel assignment")
 	}
 	name := lhs[0]
+	if name == "_" {
+		// _ = e : e is evaluated (it may not panic here), nothing is stored
+		if t.mayPanic(x.Rhs[0], ev) {
+			unsup(x, "assignment to _ of an expression that can panic")
+		}
+		t.pure(x.Rhs[0], ev, "")
+		return cont(ev)
+	}
 	var typ string
 	if define {
 		typ = t.typeOf(x.Rhs[0], ev)
@@ -1722,7 +1853,14 @@ func (t *translator) rangeStmt(x *ast.RangeStmt, rest []ast.Stmt, ev *env, k fun
 	if !strings.HasPrefix(xt, "[]") {
 		unsup(x.X, "range over a %s", xt)
 	}
-	carried := assigned(x.Body.List, ev)
+	evVar := ev.nest()
+	evVar.add(vname, xt[2:], 1)
+	var carried []*variable
+	for _, v := range assigned(x.Body.List, evVar) {
+		if v.name != vname {
+			carried = append(carried, v)
+		}
+	}
 	for _, v := range carried {
 		if used([]ast.Node{x.X})[v.name] {
 			unsup(x, "ranged slice depends on %s, which the body assigns", v.name)
@@ -2067,13 +2205,18 @@ func (t *translator) function(fd *ast.FuncDecl, spec fnSpec) {
 							written[id.Name] = true
 						}
 					}
+					if st, isStar := l.(*ast.StarExpr); isStar {
+						if id, isId := st.X.(*ast.Ident); isId {
+							written[id.Name] = true
+						}
+					}
 				}
 			}
 			return true
 		})
 	}
 	for _, p := range t.pars {
-		if written[p.name] && t.a.records[p.typ] != nil {
+		if written[p.name] && (t.a.records[p.typ] != nil || t.a.cells[p.typ] != "") {
 			t.outs = append(t.outs, p)
 		}
 	}
@@ -2097,8 +2240,10 @@ func (t *translator) function(fd *ast.FuncDecl, spec fnSpec) {
 				}
 			case *ast.ExprStmt:
 				if c, isCall := a.X.(*ast.CallExpr); isCall && len(c.Args) == 1 {
-					if id, isId := c.Args[0].(*ast.Ident); isId {
-						t.reassigned[id.Name] = true
+					if _, isVar := c.Fun.(*ast.Ident); isVar {
+						if id, isId := c.Args[0].(*ast.Ident); isId {
+							t.reassigned[id.Name] = true
+						}
 					}
 				}
 			}
